@@ -5,7 +5,7 @@
     (two function parameters with three stated facts, each checked against CPython per case).
     All statements are for strings of any length. *)
 From Coq Require Import List NArith ZArith Bool.
-From C41 Require Import Gen Model Proofs.
+From C41 Require Import Gen Model Proofs B64 B64Proofs.
 Import ListNotations.
 Local Open Scope N_scope.
 
@@ -36,22 +36,38 @@ Theorem xtext_unrepaired_roundtrip_partial : forall s : list N,
 Proof. exact xtext_unrepaired_partial. Qed.
 Print Assumptions xtext_unrepaired_roundtrip_partial.
 
-(** IMAP4 modified UTF-7, relative to the base64 layer: if modified_unbase64 inverts
-    modified_base64 on non-empty runs, and modified_base64 produces a non-empty string over the
-    modified BASE64 alphabet, then for EVERY string of code points decoder(encoder(s)) = s ... *)
-Theorem utf7_roundtrip :
-  forall (b64enc : list N -> list N) (b64dec : list N -> option (list N)),
-  (forall run, run <> [] -> b64dec (b64enc run) = Some run) ->
-  (forall run c, In c (b64enc run) -> is_mb64 c = true) ->
-  (forall run, run <> [] -> b64enc run <> []) ->
-  forall s : list N, utf7_decode b64dec (utf7_encode b64enc s) = Some s.
-Proof. exact utf7_rt. Qed.
+(** IMAP4 modified UTF-7.  [mb64_encode]/[mb64_decode] (B64.v) are RFC 3501 5.1.3 written out:
+    UTF-16 code units (surrogate pairs above the BMP), big-endian bits, 6-bit groups with the
+    last one zero-padded, the modified BASE64 alphabet, no "=" padding.
+    For EVERY string of Unicode scalar values (any length; code points up to U+10FFFF that are not
+    surrogates) decoder(encoder(s)) = s ... *)
+Theorem utf7_roundtrip : forall s : list N, Forall (fun c => valid_cp c = true) s ->
+  utf7_decode mb64_decode (utf7_encode mb64_encode s) = Some s.
+Proof. exact utf7_rt_rfc. Qed.
 Print Assumptions utf7_roundtrip.
 
-(** ... and the encoded form is printable US-ASCII only (RFC 3501 5.1.3) *)
-Theorem utf7_output_printable_rfc3501_form :
-  forall (b64enc : list N -> list N),
-  (forall run c, In c (b64enc run) -> is_mb64 c = true) ->
-  forall (s : list N) (c : N), In c (utf7_encode b64enc s) -> 32 <= c <= 126.
-Proof. intros b64enc H s c Hc. exact (enc_printable b64enc H s [] c Hc). Qed.
+(** ... and the encoded form of ANY string is printable US-ASCII only (RFC 3501 5.1.3) *)
+Theorem utf7_output_printable_rfc3501_form : forall (s : list N) (c : N),
+  In c (utf7_encode mb64_encode s) -> 32 <= c <= 126.
+Proof. exact utf7_printable_rfc. Qed.
 Print Assumptions utf7_output_printable_rfc3501_form.
+
+(** the base64-of-UTF-16BE layer on its own: it inverts itself on scalar values, stays inside the
+    modified BASE64 alphabet (so never "-" or "&"), and is non-empty on a non-empty run *)
+Theorem modified_base64_layer : forall run : list N,
+  (forallb valid_cp run = true -> mb64_decode (mb64_encode run) = Some run)
+  /\ (forall c, In c (mb64_encode run) -> is_mb64 c = true)
+  /\ (run <> [] -> mb64_encode run <> []).
+Proof. intros run. exact (conj (mb64_roundtrip run) (conj (mb64_alphabet run) (mb64_nonempty run))). Qed.
+Print Assumptions modified_base64_layer.
+
+(** the state machines alone, over ANY base64 layer with these three facts (kept because the
+    implementation delegates the layer to CPython's binascii / utf-16-be / utf-7 codecs) *)
+Theorem utf7_roundtrip_over_any_base64_layer :
+  forall (b64enc : list N -> list N) (b64dec : list N -> option (list N)) (P : N -> Prop),
+  (forall run, run <> [] -> Forall P run -> b64dec (b64enc run) = Some run) ->
+  (forall run c, In c (b64enc run) -> is_mb64 c = true) ->
+  (forall run, run <> [] -> b64enc run <> []) ->
+  forall s : list N, Forall P s -> utf7_decode b64dec (utf7_encode b64enc s) = Some s.
+Proof. exact utf7_rt. Qed.
+Print Assumptions utf7_roundtrip_over_any_base64_layer.
